@@ -1,6 +1,7 @@
 package checks
 
 import (
+	"encoding/json"
 	"fmt"
 	"os"
 	"path/filepath"
@@ -70,6 +71,10 @@ func c09Workspaces() []c09WS {
 				"c.lua": "---@type Derived\nlocal v = {}\nprint(v.fa, v.fb)\n"},
 			open:    []string{"c.lua"},
 			queries: []c09Query{{"definition", "c.lua", 2, 8, ""}, {"definition", "c.lua", 2, 14, ""}, {"hover", "c.lua", 2, 8, ""}, {"completion", "c.lua", 2, 8, "."}}},
+		{name: "w10-global-that-is-a-function-in-one-file-and-a-number-in-another",
+			files: map[string]string{"a.lua": "--- the function\nfunction foo(x) return x end\n", "b.lua": "--- the number\nfoo = 5\n", "c.lua": "print(foo)\n\n"},
+			open:  []string{"c.lua"},
+			queries: []c09Query{{"completion+resolve", "c.lua", 1, 0, "foo"}, {"completion+resolve", "c.lua", 0, 9, "foo"}, {"hover", "c.lua", 0, 7, ""}, {"definition", "c.lua", 0, 7, ""}}},
 		{name: "w9-one-watched-files-batch-naming-a-changed-and-an-unchanged-file",
 			files: map[string]string{"a.lua": "local z = 1\nprint(z)\n", "b.lua": "gy = 1\n", "c.lua": "print(gx, gy)\n"},
 			open:  []string{"c.lua"},
@@ -135,6 +140,31 @@ func c09Answer(s *drv.Server, q c09Query) string {
 		}
 		sort.Strings(ls)
 		return strings.Join(ls, ",")
+	case "completion+resolve":
+		// the item labelled q.arg of the candidate list, resolved: kind, detail and documentation name the winning definition
+		raw, err := s.CallRaw("textDocument/completion", map[string]interface{}{"textDocument": map[string]interface{}{"uri": s.URI(q.file)},
+			"position": map[string]interface{}{"line": q.line, "character": q.ch}, "context": map[string]interface{}{"triggerKind": 1}})
+		if err != nil {
+			return "error:" + err.Error()
+		}
+		var items []map[string]interface{}
+		if json.Unmarshal(raw, &items) != nil {
+			var w struct {
+				Items []map[string]interface{} `json:"items"`
+			}
+			json.Unmarshal(raw, &w)
+			items = w.Items
+		}
+		for _, it := range items {
+			if it["label"] == q.arg {
+				res, err := s.CallRaw("completionItem/resolve", it)
+				if err != nil {
+					return fmt.Sprintf("kind=%v resolve-error:%s", it["kind"], err.Error())
+				}
+				return fmt.Sprintf("kind=%v resolved=%s", it["kind"], strings.ReplaceAll(string(res), s.Root, "$ROOT"))
+			}
+		}
+		return "not-offered"
 	case "wssymbol":
 		ws, err := s.WsSymbols(q.arg)
 		if err != nil {
@@ -349,7 +379,7 @@ func init() {
 	core.Register(&core.Check{
 		ID:        "C09",
 		Technique: "stateless schedule exploration of the real server under a controlled runtime (iterative context bounding over goroutine start, channel, reflect.Select, mutex, WaitGroup and shared-object method-entry points) crossed with the pool width and every start offset of Go's map iteration; all executions of a workspace must give identical observables",
-		Rule: "closed systems: 9 small workspaces (a watched-files batch naming a changed and an unchanged file, a table with more members than the hover preview shows, a directory reachable under three names through symbolic links, duplicate global function, same-base-name modules, files that look at each other during the first pass through a type-2 import frame and an enum block, a global used in three files, symbols sharing a prefix, class annotations across files); each is started (directory scan, first/second/third pass pools), files are opened and definition/hover/references/completion/symbol queries are asked; " +
+		Rule: "closed systems: 10 small workspaces (a global that is a function in one file and a number in another, completed and resolved from a third, a watched-files batch naming a changed and an unchanged file, a table with more members than the hover preview shows, a directory reachable under three names through symbolic links, duplicate global function, same-base-name modules, files that look at each other during the first pass through a type-2 import frame and an enum block, a global used in three files, symbols sharing a prefix, class annotations across files); each is started (directory scan, first/second/third pass pools), files are opened and definition/hover/references/completion/symbol queries are asked; " +
 			"explored: every schedule with <=1 deviation from the default schedule at synchronisation points for NumCPU in {1,2} x all 8 map-iteration start offsets (<=2 deviations at offset 0; thorough: at every offset), plus method-entry granularity with <=1 deviation at offsets {0,1} (thorough: <=2 at offset 0); oracle: the normalised observables equal those of the canonical execution (1 CPU, offset 0, default schedule). " +
 			"states = completed executions; transitions = scheduling decisions; non-trivial = configurations with more than one outcome",
 		Assumptions: []string{
